@@ -24,7 +24,7 @@ EXPLANATION += (  # round-3 supplement
     ' A6 every type erasure in List<T> and the value stored by Constant::new is T::Transformed. A7 types Rust passes by pointer are not elided from signatures (known finding). A1 requires exactly repr(u8).'
 )
 EXPLANATION += (
-    ' A8 (= C18.I8) the Roto type under which a script reads a registered Rust value is built from the Rust type description constructor by constructor with the components in the same order.'
+    ' A8 (= C18.I8) the Roto type under which a script reads a registered Rust value is built from the Rust type description constructor by constructor with the components in the same order. A9 a projected mir::Place built on a variable that assign_to_var(value, T) made carries root type T.'
 )
 ASSUMPTIONS = [
     "rustc's layout_of is the oracle for the layout of the Rust-side types",
@@ -628,6 +628,49 @@ def rule_a8(F):
     return r
 
 
+def rule_a9(F):
+    """Reading a component: a `mir::Place { var, root_ty, projection }` with a non-empty projection names a component of `var` at
+    the offset that the layout of `root_ty` gives it - so `root_ty` must be the type the variable was created with.  Where the MIR
+    lowerer makes the variable with `assign_to_var(value, T)`, the root type of every projected place on it is that same T (not,
+    say, the function's return type: `x?` inside a function returning `bool?` would read the payload of a `u64?` at the wrong offset)."""
+    r = RuleResult("C05.A9", "projected places in the MIR lowerer carry the type their variable was created with (payload offsets of `?`, field access, match bindings)", floor=3)
+    for b in F.bodies_in(["src/mir/lower.rs", "src/mir/lower/match_expr.rs"]):
+        if not b.mir or "Lowerer" not in b.path:
+            continue
+        defs = None
+        for bi, blk in enumerate(b.blocks):
+            for st in blk["stmts"]:
+                if st["k"] != "assign" or st["rv"]["k"] != "agg" or st["rv"].get("adt") != "mir::Place":
+                    continue
+                fs = st["rv"].get("fields") or []
+                if not {"var", "root_ty", "projection"} <= set(fs):
+                    continue
+                ops = dict(zip(fs, st["rv"]["ops"]))
+                defs = defs or mir.Defs(b)
+                # only projected places (projection not Vec::new())
+                po = ops["projection"]
+                if mir.is_place_op(po):
+                    pk = mir.origin_key(b, defs, po[1])
+                    if pk.endswith("Vec::<T>::new"):
+                        continue
+                if not mir.is_place_op(ops["var"]) or not mir.is_place_op(ops["root_ty"]):
+                    continue
+                # the variable: result of assign_to_var(value, T)?
+                made = [x for x in mir.back_calls(b, defs, ops["var"][1][0]) if hir.last(mir.callee(b.blocks[x]["term"]) or "") == "assign_to_var"]
+                if len(made) != 1:
+                    continue
+                mt = b.blocks[made[0]]["term"]
+                t_made = mir.origin_key(b, defs, mt["args"][2][1]) if len(mt["args"]) > 2 and mir.is_place_op(mt["args"][2]) else None
+                t_root = mir.origin_key(b, defs, ops["root_ty"][1])
+                same = t_made is not None and (t_made == t_root)
+                r.inst("%s Place line %s" % (hir.last(b.path), st.get("line")), {"fn": b.path, "line": st.get("line"), "variable_created_with": t_made, "root_ty": t_root})
+                if not same:
+                    r.bad(b.path, "projected place with a foreign root type", relfile(b.file), st.get("line"),
+                          "a component of the variable made by assign_to_var(.., %s) is addressed with root type %s: the component's offset is computed from the layout of another type "
+                          "(`x?` on a `u64?` inside a function returning `bool?` reads the payload at the bool's offset)" % (t_made, t_root))
+    return r
+
+
 def rules(ctx):
     F = ctx["F"]
-    return [rule_a1(F), rule_a2(F), rule_a3(F), rule_a4(F), rule_a5(F), rule_a6(F), rule_a7(F), rule_a8(F)]
+    return [rule_a1(F), rule_a2(F), rule_a3(F), rule_a4(F), rule_a5(F), rule_a6(F), rule_a7(F), rule_a8(F), rule_a9(F)]
